@@ -113,7 +113,8 @@ type lifeClient struct {
 }
 
 type lifeRun struct {
-	stormSeq int
+	scheduled bool
+	stormSeq  int
 	srv      *redis.Server
 	double   *double
 	plain    int
@@ -178,6 +179,22 @@ func newLifeRun(cfg []string) *lifeRun {
 		case strings.HasPrefix(t, "pw="):
 			lr.pw = t[3:]
 			lr.srv.SetRequirePass(lr.pw)
+		case strings.HasPrefix(t, "delay="):
+			// forced schedule (hook H2): the goroutine that reaches one of these points is held back for the given time,
+			// so that the others overtake it: delay=<point>:<ms>[,<point>:<ms>...]
+			delays := map[string]time.Duration{}
+			for _, d := range strings.Split(t[6:], ",") {
+				if i := strings.IndexByte(d, ':'); i > 0 {
+					ms, _ := strconv.Atoi(d[i+1:])
+					delays[d[:i]] = time.Duration(ms) * time.Millisecond
+				}
+			}
+			redis.VerifSetSchedule(func(point string) {
+				if d, ok := delays[point]; ok {
+					time.Sleep(d)
+				}
+			})
+			lr.scheduled = true
 		}
 	}
 	return lr
@@ -553,6 +570,9 @@ func (lr *lifeRun) tlsBad(kind string, f []string) string {
 }
 
 func (lr *lifeRun) shutdown() {
+	if lr.scheduled {
+		defer redis.VerifSetSchedule(nil)
+	}
 	for _, cl := range lr.clients {
 		cl.conn.Close()
 	}
